@@ -45,3 +45,124 @@ Theorem C16_strip_first_refuted :
   <> snd (diff_and_patch v c16_witness_rules [] c16_witness_old c16_witness_new).
 Proof. vm_compute. intro H. discriminate H. Qed.
 Print Assumptions C16_strip_first_refuted.
+
+(* ===================== the TEXT level: the reader both front ends share =====================
+   Both front ends start from a dump text: the device front end parses the running config with
+   parse_to_tree(text, formatter.split) (annet/gen.py), the file front end reads the same text from a
+   file (api._read_device_config).  The theorems say which noise of a dump is neutral for that parse —
+   the families the correspondence run feeds to both real front ends — and which clean-up of the text
+   before parsing is NOT neutral.  parse_items is the model of _stripped_indents/_stacked on the
+   classified lines (Model/Offside.v); outcome_tree forgets the line number of a ParserError. *)
+From Coq Require Import Ascii.
+From Annet Require Import Model.Offside Gen.Src_vendors Model.Join Spec.P_C16t Spec.P_C16r Proofs.C16TextProofs.
+
+(* comment lines and blank lines: removing (or inserting) them anywhere, in any parser state, does not
+   change the tree or whether the parse fails *)
+Theorem C16_text_comment_lines_neutral :
+  forall (its : list item) (n m : nat) (s : pstate),
+    outcome_tree (parse_items (filter (fun i => negb (is_skip i)) its) n s) =
+    outcome_tree (parse_items its m s).
+Proof. exact parse_items_skip_neutral. Qed.
+Print Assumptions C16_text_comment_lines_neutral.
+
+(* the same on lines, for the two kinds the generator inserts: lines starting with "!" and empty lines *)
+Theorem C16_text_bang_and_empty_lines_neutral :
+  forall lines : list string,
+    outcome_tree (parse_lines default_comments (filter (fun l => negb (bang_or_empty l)) lines)) =
+    outcome_tree (parse_lines default_comments lines).
+Proof. exact bang_and_empty_lines_neutral. Qed.
+Print Assumptions C16_text_bang_and_empty_lines_neutral.
+
+(* what the lines of a dump are to the parser *)
+Theorem C16_text_line_classes :
+  (forall s, classify default_comments (String "!"%char s) = Skip) /\
+  (forall s, classify default_comments (String "#"%char s) = Reset) /\
+  classify default_comments "" = Skip.
+Proof. exact (conj classify_bang_line (conj classify_hash_line classify_empty_line)). Qed.
+Print Assumptions C16_text_line_classes.
+
+(* VRP5 style: every section that ends with a "#" line in column 0 may be printed with its own left
+   margin; the outcome (tree, or the very same ParserError) is that of the dump without margins *)
+Theorem C16_text_section_margins_neutral :
+  forall (secs : list (nat * list item)) (n : nat) (s : pstate),
+    forallb (fun ks => no_reset (snd ks)) secs = true ->
+    ps_g s = None ->
+    parse_items (render_sections secs) n s = parse_items (render_sections (unshifted secs)) n s.
+Proof. exact section_margins_neutral. Qed.
+Print Assumptions C16_text_section_margins_neutral.
+
+Example C16_text_section_margins_nonvacuous :
+  forallb (fun ks => no_reset (snd ks)) vrp5_sections = true /\ ps_g ps_init = None /\
+  render_sections vrp5_sections <> render_sections (unshifted vrp5_sections) /\
+  parse_items (render_sections vrp5_sections) 1 ps_init =
+  Ok [("interface GigabitEthernet0/0/1", T [("description uplink", T [])]);
+      ("ip route-static 0.0.0.0 0.0.0.0 10.0.0.254", T []);
+      ("info-center loghost 10.0.0.7", T [])].
+Proof. vm_compute. repeat split. intro H. discriminate H. Qed.
+
+(* a reader may drop the "#" lines before parsing only if the first line of the dump and of every
+   section sits in column 0 (CE/NE style): then the outcome is the same ... *)
+Theorem C16_text_hash_lines_droppable_when_sections_start_in_col0 :
+  forall its : list item,
+    heads_col0 true its = true ->
+    outcome_tree (parse_items (filter (fun i => negb (is_reset i)) its) 1 ps_init) =
+    outcome_tree (parse_items its 1 ps_init).
+Proof. exact drop_resets_neutral_col0_init. Qed.
+Print Assumptions C16_text_hash_lines_droppable_when_sections_start_in_col0.
+
+Example C16_text_hash_lines_droppable_nonvacuous :
+  let its := [Reset; Content 0 "interface GE1"; Content 1 "shutdown"; Reset; Content 0 "ip route-static a"; Reset] in
+  heads_col0 true its = true /\
+  parse_items its 1 ps_init = Ok [("interface GE1", T [("shutdown", T [])]); ("ip route-static a", T [])].
+Proof. vm_compute. split; reflexivity. Qed.
+
+(* ... and not in general: on a VRP5-style dump a file reader that removes the lines starting with "!" or
+   "#" before parse_to_tree reads another tree than the device front end reads from the same text
+   (the space-prefixed global command becomes a child of the preceding interface block) *)
+Theorem C16_text_dropping_marked_lines_refuted :
+  exists text : string,
+    read_config "huawei" text <> None /\
+    read_config "huawei" (drop_marked_lines text) <> read_config "huawei" text.
+Proof.
+  exists vrp5_dump. rewrite vrp5_dump_device_side, vrp5_dump_marked_lines_dropped.
+  split; intro H; discriminate H.
+Qed.
+Print Assumptions C16_text_dropping_marked_lines_refuted.
+
+(* the same two laws on the LINES of a dump (what the generator of the correspondence run writes) *)
+From Annet Require Import Proofs.C16LinesProofs.
+
+(* sections of lines none of which starts with "#", each followed by a "#" line: printing every line of a
+   section k columns to the right (k chosen per section) gives the same outcome as printing none shifted *)
+Theorem C16_text_section_margins_neutral_lines :
+  forall secs : list (nat * list string),
+    forallb (fun ks => hash_free (snd ks)) secs = true ->
+    parse_lines default_comments (render_lines secs) =
+    parse_lines default_comments (render_lines (unshifted_lines secs)).
+Proof. exact section_margins_neutral_lines. Qed.
+Print Assumptions C16_text_section_margins_neutral_lines.
+
+Example C16_text_section_margins_lines_nonvacuous :
+  let secs := [ (0, ["!Software Version V200R001C00SPC300"]);
+                (0, ["interface GigabitEthernet0/0/1"; " description uplink"; ""]);
+                (1, ["ip route-static 0.0.0.0 0.0.0.0 10.0.0.254"]);
+                (2, ["info-center loghost 10.0.0.7"]) ] in
+  forallb (fun ks => hash_free (snd ks)) secs = true /\
+  render_lines secs =
+    ["!Software Version V200R001C00SPC300"; "#";
+     "interface GigabitEthernet0/0/1"; " description uplink"; ""; "#";
+     " ip route-static 0.0.0.0 0.0.0.0 10.0.0.254"; "#";
+     "  info-center loghost 10.0.0.7"; "#"] /\
+  parse_lines default_comments (render_lines secs) =
+  Ok [("interface GigabitEthernet0/0/1", T [("description uplink", T [])]);
+      ("ip route-static 0.0.0.0 0.0.0.0 10.0.0.254", T []);
+      ("info-center loghost 10.0.0.7", T [])].
+Proof. vm_compute. repeat split. Qed.
+
+(* blanks appended to any lines, any number per line, change nothing (not even the line of an error) *)
+Theorem C16_text_trailing_blanks_neutral :
+  forall (pad : string -> nat) (lines : list string),
+    parse_lines default_comments (map (fun l => pad_right l (pad l)) lines) =
+    parse_lines default_comments lines.
+Proof. exact trailing_blanks_neutral. Qed.
+Print Assumptions C16_text_trailing_blanks_neutral.
